@@ -56,12 +56,44 @@ def run_history(chk, sc, cfgseed, nlev, consumers=False):
         for l in range(nlev):
             nb = len(mesh["levels"][l])
             lays.append({k: rand_layout(rng, nb) for k in ("state", "gradp", "ir")})
-        gamma_chk.write_checkpoint(os.path.join(d, "chk00007"), mesh, lays, cfg_, ns=2, nghost=1 + cfgseed % 3)
+        ng = 1 + cfgseed % 3
+        kdata = gamma_chk.write_checkpoint(os.path.join(d, "chk00007"), mesh, lays, cfg_, ns=2, nghost=ng)
+        # the conversion is the first operation of the pipeline: with or without pressure gradient and reaction rates (the
+        # extra fields ride along; the histories only name the first nine)
+        extra = cfgseed % 2 == 1
         with shims.pool_shim(shims.Scheduler(default="random", rng=random.Random(cfgseed))), core.quiet():
-            chk2plt(os.path.join(d, "chk00007"), species=["H2", "O2"], gradp=False, pltdir=os.path.join(d, "K"))
+            chk2plt(os.path.join(d, "chk00007"), species=["H2", "O2"], gradp=False, floor_massfracs=False, pltdir=os.path.join(d, "K"))
+            if extra:
+                # the same checkpoint converted with pressure gradient and reaction rates: judged by name below (the histories
+                # of Kitchen.tla go on from the nine-field conversion)
+                chk2plt(os.path.join(d, "chk00007"), species=["H2", "O2"], gradp=True, species_reactions=True, floor_massfracs=False,
+                        pltdir=os.path.join(d, "Kx"))
         AK = alpha.abstract(os.path.join(d, "K"))
         if alpha.wellformed(AK):
             return "chk2plt's output is not a well-formed plotfile: %s" % "; ".join(alpha.wellformed(AK)[:2])
+        judged = [("K", AK)]
+        if extra:
+            AKx = alpha.abstract(os.path.join(d, "Kx"))
+            if alpha.wellformed(AKx):
+                return "chk2plt's output (with gradp and reaction rates) is not a well-formed plotfile: %s" % "; ".join(alpha.wellformed(AKx)[:2])
+            judged.append(("Kx", AKx))
+        # every field of the converted plotfile holds, under its NAME, the checkpoint's interior data
+        state_names = ["x_velocity", "y_velocity", "z_velocity", "density", "Y(H2)", "Y(O2)", "rhoh", "temp", "RhoRT"]
+        for kname, AKj in judged:
+          for l, Cl in enumerate(AKj["lev"]):
+            for b, (fn, off) in enumerate(Cl["fod"], 1):
+                fab = alpha.read_fab_at(os.path.join(d, kname, Cl["dir"], fn), off)
+                for name, arr in zip(AKj["hdr"]["fields"], fab["arrays"]):
+                    if name in state_names:
+                        want = kdata[("state", l, b)][ng:-ng, ng:-ng, ng:-ng, state_names.index(name)]
+                    elif name.startswith("gradp"):
+                        want = kdata[("gradp", l, b)][..., "xyz".index(name[-1])]
+                    elif name.startswith("I_R("):
+                        want = kdata[("ir", l, b)][..., ["H2", "O2"].index(name[4:-1])]
+                    else:
+                        return "chk2plt wrote a field called %r" % name
+                    if not np.array_equal(np.asarray(arr), np.asarray(want).ravel(order="F"), equal_nan=True):
+                        return "the converted checkpoint's field %r (level %d box %d) does not hold the checkpoint's %s data" % (name, l, b, name)
         for l, Cl in enumerate(AK["lev"]):
             for b, (fn, off) in enumerate(Cl["fod"], 1):
                 fab = alpha.read_fab_at(os.path.join(d, "K", Cl["dir"], fn), off)
